@@ -5,6 +5,7 @@ package main
 // Everything used is recorded in Task.assumed and listed in the evidence.
 
 import (
+	"strconv"
 	"fmt"
 	"go/token"
 	"go/types"
@@ -458,6 +459,20 @@ func (a *Activation) selectStmt(in *ssa.Select, st *State) *State {
 			a.timerFact(st, ch, chosen)
 		}
 	}
+	// a select with a default branch takes the default only when no case is ready; the one readiness fact modelled:
+	// the Done channel of a context already observed as cancelled is closed, hence ready
+	if !in.Blocking {
+		for _, s := range in.States {
+			if s.Dir == types.SendOnly {
+				continue
+			}
+			ch := a.val(s.Chan, st)
+			if x, ok := doneChanOwner(t, ch.S); ok {
+				t.regArray("$g:canc", "(Array Int Bool)")
+				t.assume(st.pc, sImp(sApp("select", t.lookup(st, "$g:canc"), x), sNot(fmt.Sprintf("(= %s (- 1))", idx))))
+			}
+		}
+	}
 	t.regArray("$g:sel", "(Array Int Int)")
 	t.set(st, "$g:sel", sApp("store", t.lookup(st, "$g:sel"), sInt(int64(selectOrdinal(in))), idx))
 	a.env[in] = Val{K: KTuple, T: in.Type(), Fields: fields}
@@ -622,4 +637,36 @@ func (a *Activation) applyRely(st *State, arr, ref, cellName string, k Kind) {
 		t.set(st, arr, sApp("store", t.lookup(st, arr), ref, nv))
 		t.assumed["rely on the other thread for shared cell '"+cellName+"' ("+c.Src+"): "+c.Expr] = true
 	}
+}
+
+// doneChanOwner: ch is the recorded result of x.Done() for some interface value x (a context): returns x.
+func doneChanOwner(t *Task, ch string) (string, bool) {
+	prefix := "(|$oret0I| (|$mth| "
+	if !strings.HasPrefix(ch, prefix) {
+		return "", false
+	}
+	rest := ch[len(prefix):]
+	sp := strings.Index(rest, " ")
+	if sp < 0 {
+		return "", false
+	}
+	id, err := strconv.Atoi(rest[:sp])
+	if err != nil || id != t.eng.methID("Done") {
+		return "", false
+	}
+	// the receiver term: balanced from here to the matching ')' of ($mth id recv)
+	r := rest[sp+1:]
+	depth := 0
+	for i, c := range r {
+		switch c {
+		case '(':
+			depth++
+		case ')':
+			if depth == 0 {
+				return strings.TrimSpace(r[:i]), true
+			}
+			depth--
+		}
+	}
+	return "", false
 }
